@@ -869,9 +869,11 @@ func (c *Client) Remove(path string) error {
 		}
 	}
 
-	fi, err := c.Stat(path)
+	// Look at the name itself (a link is removed, not followed), and never let
+	// the error of this lookup stand in for the error of the removal.
+	fi, err := c.Lstat(path)
 	if err != nil {
-		return err
+		return errF
 	}
 
 	if fi.IsDir() {
@@ -1086,6 +1088,11 @@ func (c *Client) MkdirAll(path string) error {
 // RemoveAll delete files recursively in the directory and Recursively delete subdirectories.
 // An error will be returned if no file or directory with the specified path exists
 func (c *Client) RemoveAll(path string) error {
+	// Like os.RemoveAll, work on the name: with a trailing slash
+	// the file system would follow a link to a directory.
+	for len(path) > 1 && path[len(path)-1] == '/' {
+		path = path[:len(path)-1]
+	}
 
 	// Get the file/directory information; do not follow a symlink:
 	// removing a link to a directory removes the link, not what it points to.
@@ -1095,32 +1102,37 @@ func (c *Client) RemoveAll(path string) error {
 	}
 
 	if fi.IsDir() {
+		// An empty directory needs no listing (and need not be readable).
+		if c.RemoveDirectory(path) == nil {
+			return nil
+		}
+
 		// Delete files recursively in the directory
 		files, err := c.ReadDir(path)
 		if err != nil {
 			return err
 		}
 
+		// Remove everything that can be removed, and report the first error.
+		var firstErr error
 		for _, file := range files {
 			if file.IsDir() {
 				// Recursively delete subdirectories
 				err = c.RemoveAll(path + "/" + file.Name())
-				if err != nil {
-					return err
-				}
 			} else {
 				// Delete individual files
 				err = c.Remove(path + "/" + file.Name())
-				if err != nil {
-					return err
-				}
+			}
+			if err != nil && firstErr == nil {
+				firstErr = err
 			}
 		}
-
+		if firstErr != nil {
+			return firstErr
+		}
 	}
 
 	return c.Remove(path)
-
 }
 
 // File represents a remote file.
